@@ -56,6 +56,8 @@ impl WorkerGoals {
             if *requested {
                 *requested = false;
                 self.current = Some(goal);
+                #[cfg(feature = "verif")]
+                crate::util::verif::rt::event("goal_set", goal as usize, 0);
                 probe!(mmtk, goal_set, goal);
                 return Some(goal);
             }
@@ -71,7 +73,17 @@ impl WorkerGoals {
     /// Called when the current goal is completed.  This will clear the current goal.
     pub fn on_current_goal_completed(&mut self) {
         probe!(mmtk, goal_complete);
+        #[cfg(feature = "verif")]
+        crate::util::verif::rt::event("goal_done", self.current.map(|g| g as usize + 1).unwrap_or(0), 0);
         self.current = None
+    }
+
+    /// Verification hook (feature `verif`): the requested goals as a bit mask.
+    #[cfg(feature = "verif")]
+    pub fn verif_requested_mask(&self) -> usize {
+        self.requests
+            .iter()
+            .fold(0, |m, (g, r)| if *r { m | (1 << g as usize) } else { m })
     }
 
     /// Test if the given `goal` is requested.  Used for debug purpose, only.  The workers always
